@@ -134,7 +134,15 @@ PlsDataForms == {"fortran", "strided"}          \* CP_PLSR centres the data in p
 UnitPairs == {<<0, 0>>, <<-20, -20>>, <<-40, -30>>, <<80, 50>>, <<30, -40>>}
 UnitRanks == IF FullCross THEN 1..3 ELSE {1, 3}          \* ranks / component counts of the non-base-unit configurations
 \* dtypes AT FIT TIME: "x32" X float32 with float64 targets, "xint" X int64, "reg32"/"reg64" reg_W a NumPy scalar
-FitForms == {"f64", "x32", "xint", "reg32", "reg64"}
+\* ... and MEMORY LAYOUT of the training data: "xF" Fortran-ordered X, "xmoved" X a transposed view (sample axis moved
+\* to the front of data stored samples-last), "xstrided" a non-contiguous view, "xro" read-only arrays, "yF" targets
+\* Fortran-ordered / strided.  Layout is not part of the value: every clause is unchanged.
+FitForms == {"f64", "x32", "xint", "reg32", "reg64", "xF", "xmoved", "xstrided", "xro", "yF"}
+PlsLayouts == {"C", "F", "moved", "strided", "ro"}          \* of both X and Y handed to CP_PLSR.fit
+\* exact zeros / exact ties in the DATA of CP_PLSR: "contrast": the last mode has size 2 and X[..., 1] = -X[..., 0]
+\* exactly (a loading (c, -c) whose sum is exactly 0); "zerofeat": one feature is identically 0 (a zero loading entry)
+PlsData == {"generic", "contrast", "zerofeat"}
+ContrastOK(xs) == Len(xs) >= 2 /\ xs[Len(xs)] = 2
 \* SIZE regime of CP_PLSR: one shape with more than 50 000 features per sample (few samples, unstructured data)
 BigShapes == {<<40, 40, 32>>}
 NRegPairs == IF FullCross THEN NSamples \X Regs ELSE {<<6, 1>>, <<9, 10>>, <<12, 100>>}
@@ -146,7 +154,8 @@ ValidReg(c) ==
        ELSE c.ys = <<>> /\ c.rank \in 1..3 /\ c.ranks = TuckerRanks(c.xs, c.rank)
 WeightShape(c) == c.xs \o c.ys
 ValidPls(c) == /\ c.n \in NSamples /\ c.xs \in SampleShapes \cup BigShapes /\ c.ny \in 0..3 /\ c.nc \in 1..3 /\ c.k \in 1..PlsDraws
-               /\ c.opt \in PlsOpts /\ <<c.ux, c.uy>> \in UnitPairs
+               /\ c.opt \in PlsOpts /\ <<c.ux, c.uy>> \in UnitPairs /\ c.lay \in PlsLayouts /\ c.dat \in PlsData
+               /\ (c.dat = "contrast" => ContrastOK(c.xs))
 YCols(c) == IF c.ny = 0 THEN 1 ELSE c.ny      \* ny = 0: Y given as a vector
 
 -----------------------------------------------------------------------------
@@ -207,11 +216,15 @@ CfgsOf(sd) ==
             \cup {[kind |-> "reg", model |-> "tucker", n |-> 9, xs |-> sd.xs, ys |-> <<>>, rank |-> r, ranks |-> TuckerRanks(sd.xs, r), reg |-> 10, opt |-> "tight",
                     ux |-> 0, uy |-> 0, ff |-> f, k |-> 1] : r \in UnitRanks, f \in FitForms \ {"f64"}}
       [] sd.fam = "plsbig" ->
-            {[kind |-> "pls", n |-> 6, xs |-> sd.xs, ny |-> 2, nc |-> nc, opt |-> "default", ux |-> 0, uy |-> 0, k |-> 1] : nc \in {1, 2}}
+            {[kind |-> "pls", n |-> 6, xs |-> sd.xs, ny |-> 2, nc |-> nc, opt |-> "default", ux |-> 0, uy |-> 0, lay |-> "C", dat |-> "generic", k |-> 1] : nc \in {1, 2}}
       [] sd.fam = "pls" ->
-            UNION {{[kind |-> "pls", n |-> n, xs |-> sd.xs, ny |-> ny, nc |-> nc, opt |-> o, ux |-> 0, uy |-> 0, k |-> k] :
+            UNION {{[kind |-> "pls", n |-> n, xs |-> sd.xs, ny |-> ny, nc |-> nc, opt |-> o, ux |-> 0, uy |-> 0, lay |-> "C", dat |-> "generic", k |-> k] :
                         n \in PlsN(ny, nc), o \in PlsOpts, k \in 1..PlsDraws} : ny \in 0..3, nc \in 1..3}
-            \cup {[kind |-> "pls", n |-> 9, xs |-> sd.xs, ny |-> ny, nc |-> nc, opt |-> "default", ux |-> u[1], uy |-> u[2], k |-> 1] :
+            \cup {[kind |-> "pls", n |-> 9, xs |-> sd.xs, ny |-> ny, nc |-> nc, opt |-> "default", ux |-> 0, uy |-> 0, lay |-> l, dat |-> "generic", k |-> 1] :
+                        ny \in (IF FullCross THEN 0..3 ELSE {0, 2}), nc \in (IF FullCross THEN 2..3 ELSE {3}), l \in PlsLayouts \ {"C"}}
+            \cup {[kind |-> "pls", n |-> 9, xs |-> sd.xs, ny |-> ny, nc |-> nc, opt |-> "default", ux |-> 0, uy |-> 0, lay |-> "C", dat |-> d, k |-> 1] :
+                        ny \in {0, 2}, nc \in 1..2, d \in {x \in PlsData \ {"generic"} : x = "contrast" => ContrastOK(sd.xs)}}
+            \cup {[kind |-> "pls", n |-> 9, xs |-> sd.xs, ny |-> ny, nc |-> nc, opt |-> "default", ux |-> u[1], uy |-> u[2], lay |-> "C", dat |-> "generic", k |-> 1] :
                         ny \in (IF FullCross THEN 0..3 ELSE {0, 2}), nc \in UnitRanks, u \in UnitPairs \ {<<0, 0>>}}
       [] sd.fam = "thm" ->
             {[kind |-> "thm", what |-> "predict", xs |-> sd.xs, ys |-> ys, a |-> a, p |-> p] :
